@@ -53,6 +53,18 @@ MUTATIONS = [
     ("C05", "reduced-to-shifts-one-too-far", FIX + [(OT, "                min(self.size_exponent, 6) - maximum_exponent\n            )", "                min(self.size_exponent, 6) - maximum_exponent + 1\n            )")]),
     ("C05", "block1-size-reduction-ignored", FIX + [(PR, "            while block1.size_exponent < size_exp:\n", "            while False and block1.size_exponent < size_exp:\n")]),
     ("C05", "response-block-prepended", FIX + [(MSG, "        self.payload += next_block.payload\n        self.opt.block2 = block2\n", "        self.payload = next_block.payload + self.payload\n        self.opt.block2 = block2\n")]),
+    # seeded/C05-seed2: a successful acknowledgement with the more-flag cleared on a block that is not the last one
+    # (a server that enacts every block on its own) is taken as the final response; caught only with the
+    # stateless / mixed acknowledgement styles of the reference server
+    (
+        "C05",
+        "intermediate-block1-ack-taken-as-final",
+        FIX + [(PR,
+                "            else:\n                if not blockresponse.code.is_successful():\n                    break\n"
+                "                else:\n                    # ignoring (discarding) the successful intermediate result, waiting for a final one\n"
+                "                    continue\n",
+                "            elif blockresponse.code != CONTINUE:\n                # final response ahead of the end of the body\n                break\n")],
+    ),
     ("C05", "extract-block-start-at-half-size", FIX + [(MSG, "            size = 2 ** (size_exp + 4)\n            start = number * size\n", "            size = 2 ** (size_exp + 4)\n            start = number << (size_exp + 3)\n")]),
 ]
 
